@@ -286,7 +286,9 @@ def default_values():
     alt.update(dict(mu=0.25, L=2.0, R=2.0, w_h=0.5, R2=0.5, lnew=3.0, L0=2.0, L1=1.0))
     for i in range(4):
         alt.update({"gamma%d" % i: 0.25, "l%d" % i: 3.0, "c%d" % i: 2.0, "d%d" % i: -0.5})
-    return [base, alt]
+    wide = dict(base)
+    wide.update(dict(R=1e4, R2=1e4))      # badly scaled instance: Gram eigenvalues spread over more than 1e3
+    return [base, alt, wide]
 
 
 def safe_solve(env, pep, tag, **kw):
